@@ -53,6 +53,7 @@ size_t mpt_node_move(MPT_STRUCT(node) **from, MPT_STRUCT(node) *dst)
 				MPT_STRUCT(node) *tmp = src->children;
 				
 				curr->children = tmp;
+				src->children = 0;
 				while (tmp) {
 					tmp->parent = curr;
 					tmp = tmp->next;
